@@ -49,7 +49,7 @@ func runC11(p *Prog, r *Report) {
 		return
 	}
 	c := &c11ctx{p, r, rv}
-	r.MinInstances["C11.R1"] = 11
+	r.MinInstances["C11.R1"] = 8
 	r.MinInstances["C11.R2"] = 5
 	r.MinInstances["C11.R5"] = 11
 	r.MinInstances["C11.R3"] = 25
